@@ -104,9 +104,9 @@ def observe_chain(F, L, segs, mode):
 
     def is_same(j, i, query):
         try:
-            return F[j].typeof(query) is F[i].typeof(query)
-        except Exception:
-            return False
+            return "same" if F[j].typeof(query) is F[i].typeof(query) else "different"
+        except Exception as e:
+            return "error:" + type(e).__name__
 
     complete = {}
     for seg in segs:
@@ -276,6 +276,7 @@ def random_chain(rng, nffi, per):
     for k in range(nffi):
         if k:
             beh.append({"a": "NewFFI"})
+            g.frozen = set(g.su)
         start = len(g.beh)
         tries = 0
         while len(g.beh) - start < per and tries < 20 * per:
@@ -378,7 +379,7 @@ def replay(ctx, obj):
             continue
         print("mode %s clause %s item %s class %r" % (rp["mode"], clause, item, cls))
         ctx.violation(cls if cls else "%s:%s:unexplained" % (rp["mode"], clause), CLAUSE.get(clause, clause), rp)
-    print("replayed: %s" % ("still violated" if V else "accepted by the specification"))
+    print("replayed: %s" % ("still violated" if [x for x in V if x[0] != "guard"] else "accepted by the specification"))
 
 
 def selftest(ctx):
@@ -390,7 +391,7 @@ def selftest(ctx):
     rec = run_case((1, beh, libpath, os.path.join(ctx.tmp, "mods"), ("inl", "ool")))
     v = validate(ctx, [rec])
     ok1 = all(not v[(1, m)][0] for m in ("inl", "ool"))
-    rec["obs"]["ool"]["same"]["2:1:su:struct s1"] = False
+    rec["obs"]["ool"]["same"]["2:1:su:struct s1"] = "different"
     rec["obs"]["inl"]["k"]["2:k1"] = "8"
     v = validate(ctx, [rec])
     ok2 = ("same", "2:1:su:struct s1", "") in v[(1, "ool")][0] and ("k", "2:k1", "") in v[(1, "inl")][0]
